@@ -12,6 +12,8 @@ import Driver.OpsJson
 import Driver.OpsStream
 import Driver.OpsOpt
 import Driver.OpsFiles
+import Driver.OpsEncI
+import Driver.OpsSeqI
 namespace Mxj.Drv
 
 def dispatch (op : String) (args : List String) : Out :=
@@ -46,6 +48,8 @@ def dispatch (op : String) (args : List String) : Out :=
   | "bread" => runP opBread args
   | "opts" => runP opOpts args
   | "xfile" => runP opXfile args
+  | "xenci" => runP opXenci args
+  | "xseqi" => runP opXseqi args
   | "jfile" => runP opJfile args
   | "implonly" => "na"
   | _ => "bad-op"
